@@ -52,7 +52,7 @@ var crowdedPrefixPreamble = func() []Op {
 
 var profC01 = Profile{PreambleOneIn: 5, Preambles: [][]Op{crowdedPrefixPreamble}, W: with(baseWeights(), map[int]int{opSnapshot: 5, opQuery: 5, opChanges: 1, opNext: 2, opGC: 1, opCloseIter: 1}), GC: 25, TwoTxns: true, Unlocked: true}
 
-const ruleC01 = "histories of up to ~50 operations over 1-3 tables with random index sets (unique multi-key, non-unique multi-key, non-unique LPM, unique LPM): write transactions (one or two open at once) with inserts, key-changing updates, deletes, CAS/CAD, commits and aborts, change iterators and (25% of cases) the graveyard worker; up to 6 snapshots are retained (db.ReadTxn() at arbitrary points), a full audit (every query kind for every alphabet key on every index, counts, revision, initialization) is recorded when each is taken, sampled re-audits follow every later operation and a full re-audit ends the case. Non-trivial = a retained snapshot was re-audited after a later committed write; distinct by case encoding."
+const ruleC01 = "histories of up to ~50 operations over 1-3 tables with random index sets (unique multi-key, non-unique multi-key, non-unique LPM, unique LPM): write transactions (one or two open at once) with inserts, key-changing updates, deletes, CAS/CAD, commits and aborts, change iterators and (25% of cases) the graveyard worker; up to 6 snapshots are retained (db.ReadTxn() at arbitrary points), a full audit (every query kind for every alphabet key on every index, counts, revision, initialization) is recorded when each is taken, sampled re-audits follow every later operation and a full re-audit ends the case; query iterators created inside write transactions and on snapshots are held unconsumed across later writes, Commit/Abort or until the end of the case and must then yield the answer of the moment they were created. Non-trivial = a retained snapshot was re-audited after a later committed write; distinct by case encoding."
 
 func TestC01Snapshots(t *testing.T) {
 	dbTest(t, "C01", "TestC01Snapshots", ruleC01, profC01, Options{})
